@@ -571,7 +571,14 @@ def fmt(ctx: Any) -> List[Ob]:
 
         pk = hcall[0].args[0].id
         defs = [v for v in _ld2(rq).get(pk, []) if v is not None]
-        from_deferred = len(defs) == 1 and isinstance(defs[0], ast.Call) and call_name(defs[0]) == 'pop' and isinstance(defs[0].func, ast.Attribute) and self_attr(defs[0].func.value, rme) == '_deferred'
+        # the deferred packets popped as they are -- or, where none are deferred, the list that holds at most the new packet
+        is_pop = lambda d: isinstance(d, ast.Call) and call_name(d) == 'pop' and isinstance(d.func, ast.Attribute) and self_attr(d.func.value, rme) == '_deferred'  # noqa: E731
+        is_fresh = lambda d: isinstance(d, ast.List) and all(norm(e_) == p_msg for e_ in d.elts) and len(d.elts) <= 1  # noqa: E731
+        def arms(d: ast.AST) -> List[ast.AST]:
+            return arms(d.body) + arms(d.orelse) if isinstance(d, ast.IfExp) else [d]
+
+        defs_f = [a_ for d in defs for a_ in arms(d)]
+        from_deferred = sum(1 for d in defs_f if is_pop(d)) == 1 and all(is_pop(d) or is_fresh(d) for d in defs_f)
         appends = [c for c in walk_local_ordered(rq.node) if isinstance(c, ast.Call) and call_name(c) == 'append' and isinstance(c.func, ast.Attribute) and norm(c.func.value) == pk and c.args and norm(c.args[0]) == p_msg]
         others = [c for c in walk_local_ordered(rq.node) if isinstance(c, ast.Call) and call_name(c) in ('insert', 'extend', 'appendleft', 'reverse', 'sort') and isinstance(c.func, ast.Attribute) and norm(c.func.value) == pk]
         okp = from_deferred and len(appends) == 1 and not others
